@@ -47,8 +47,9 @@ type config struct {
 	Files   [2]int64 // byte lengths of the two files (piece length 16)
 	NSrc    int
 	Seq     bool
-	MaxDup  int // EndgameMaxDuplicateDownloads
-	WsMax   int // 0: the picker's own maxWebseedPieces (=1 below 40 pieces); k>0: scaled to a 20*k-piece torrent (hook)
+	MaxDup  int   // EndgameMaxDuplicateDownloads
+	Cap     int64 // state cap of the search for this configuration
+	WsMax   int   // 0: the picker's own maxWebseedPieces (=1 below 40 pieces); k>0: scaled to a 20*k-piece torrent (hook)
 }
 
 func (c *config) String() string {
@@ -487,7 +488,7 @@ func (x *ctx) startSinglePieceDownloader(w *World, p int8) {
 		return
 	}
 	k := int8(pi.Index)
-	who := fmt.Sprintf("PickFor(peer%d) = piece %d (allowedFast=%v)", p, k, af)
+	who := lazyStr(func() string { return fmt.Sprintf("PickFor(peer%d) = piece %d (allowedFast=%v)", p, k, af) })
 	bad := false
 	if ps.Dl >= 0 {
 		x.fail("pick.peer-busy", "%s although the peer is already downloading piece %d", who, ps.Dl)
@@ -674,7 +675,7 @@ func (x *ctx) startPieceDownloaderForWebseed(w *World, s int8) (nd int, out int8
 		x.st.wsNil++
 		return nd, -1
 	}
-	who := fmt.Sprintf("PickWebseed(src%d) = [%d,%d)", s, sp.Begin, sp.End)
+	who := lazyStr(func() string { return fmt.Sprintf("PickWebseed(src%d) = [%d,%d)", s, sp.Begin, sp.End) })
 	if sp.Source != src || sp.Begin >= sp.End || int(sp.End) > n {
 		x.fail("ws.bad-range", "%s: empty, out of bounds or for another source", who)
 		return nd, -1
@@ -983,6 +984,11 @@ func (x *ctx) oracle(w *World, o op) {
 		}
 	}
 }
+
+// lazyStr defers building a description until a violation is actually reported.
+type lazyStr func() string
+
+func (l lazyStr) String() string { return l() }
 
 func srcName(s *webseedsource.WebseedSource) string {
 	if s == nil {
